@@ -302,6 +302,19 @@ func e1Scens(prop, tier string) []e1Scen {
 			out = append(out, e1Scen{Prop: prop, Cfg: cfg, Alpha: alphaInterleave(cfg), Mode: "periodic", Period: 2, Len: 6 * 8 * 2, Name: "zero-valued-configuration-periodic"})
 		}
 	}
+	if prop == "C05" {
+		// ... and after a Write that failed because the init segment could not be rebuilt from unparsable parameter sets
+		// (the finished segment is already listed then): what is listed stays fetchable and unchanged while the writer carries on
+		word := []sym{{T: 0, D: "q", K: "R"}, {T: 0, D: "q", K: "n"}, {T: 0, D: "q", K: "n"}, {T: 0, D: "q", K: "n"}}
+		for _, disk := range []bool{false, true} {
+			for _, codec := range []string{"h264", "h265", "av1"} {
+				cfg := mcfg("fmp4", disk, 3, codec)
+				for fa := 1; fa <= 5; fa++ {
+					out = append(out, e1Scen{Prop: prop, Cfg: cfg, Alpha: word, Mode: "paramfault", Len: 4 * (fa + 6), FaultAt: fa, Name: fmt.Sprintf("listed-after-bad-parameter-sets-%d", fa)})
+				}
+			}
+		}
+	}
 	if prop == "C04" {
 		// a user query string that is not in canonical form (keys out of order, an escape): every view of the history
 		// - plain reloads, delta updates - spells the URI of a media sequence number the same way
